@@ -67,8 +67,8 @@ def eval (env : Env) (toks : List Tok) : Option Chain :=
 
 /-- Chains of the package-level error variables, in source order (a definition may mention earlier variables).
 A variable is reachable from itself; a definition that cannot be evaluated contributes the marker `"?"`. -/
-def sentinelChains (defs : List (String × List Tok)) : List (String × Chain) :=
-  defs.foldl (fun acc d => acc ++ [(d.1, d.1 :: ((eval { sentinels := acc } d.2).getD ["?"]))]) []
+def sentinelChains (defs : List (String × List Tok)) (wrappers : List String := []) : List (String × Chain) :=
+  defs.foldl (fun acc d => acc ++ [(d.1, d.1 :: ((eval { sentinels := acc, wrappers := wrappers } d.2).getD ["?"]))]) []
 
 /-- A wrapper `f(err, …)` is accepted when every one of its `return`s evaluates, with `err` bound to the marker
 chain `["§"]` and every other parameter bound to the empty chain, to exactly `["§"]`: the result wraps the first
@@ -92,7 +92,7 @@ def okWrappers (ws : List Wrapper) : List String :=
 def classify (c : Chain) : String :=
   let ov := c.contains "ErrIntegerOverflow"
   let dz := c.contains "ErrIntegerDivisionByZero"
-  if ov && dz then "err-both" else if ov then "overflow" else if dz then "divzero" else "err"
+  if c.contains "?" then "err-unknown" else if ov && dz then "err-both" else if ov then "overflow" else if dz then "divzero" else "err"
 
 /-- One `return …, <error expression>` of a translated function: function, source line, the answer the translator
 put into the generated definition (`overflow` / `divzero`), and the error expression. -/
@@ -104,7 +104,7 @@ structure Site where
 deriving Repr, DecidableEq
 
 def siteClass (defs : List (String × List Tok)) (ws : List Wrapper) (s : Site) : Option String :=
-  (eval { sentinels := sentinelChains defs, wrappers := okWrappers ws } s.toks).map classify
+  (eval { sentinels := sentinelChains defs (okWrappers ws), wrappers := okWrappers ws } s.toks).map classify
 
 /-- Every error site is classified as the translator claimed. -/
 def sitesOK (defs : List (String × List Tok)) (ws : List Wrapper) (sites : List Site) : Bool :=
